@@ -642,3 +642,5 @@ func clip(s string) string {
 	}
 	return s
 }
+
+func Float64Bits(v float64) uint64 { return math.Float64bits(v) }
